@@ -65,7 +65,8 @@ def coerce_int(maybe_int: _ScalarValue) -> int:
     Spec compliant int conversion.
     """
     if isinstance(maybe_int, int):
-        numeric = maybe_int
+        # bool is a subclass of int: True / False are the integers 1 / 0.
+        numeric = int(maybe_int)
     elif isinstance(maybe_int, float):
         try:
             numeric = int(maybe_int)
